@@ -18,10 +18,10 @@ def ops_for(items):
     """the operation alphabet; items = the item texts occurring in the scope"""
     o = [op('next')]
     o += [op('fwd', j) for j in (0, 1, 2, 3)] + [op('back', j) for j in (1, 2)]
-    o += [op('peek', j) for j in (-1, 0, 1, 2)]
-    o += [op('peekr', a, b) for a, b in ((0, 2), (-1, 1), (1, 4), (0, 0))]
+    o += [op('peek', j) for j in (-2, -1, 0, 1, 2)]
+    o += [op('peekr', a, b) for a, b in ((0, 2), (-1, 1), (1, 4), (0, 0), (-2, 0))]
     o += [op('has', j) for j in (1, 2, 3)]
-    o += [op('slice', a, b) for a, b in ((0, 2), (1, 9), (2, 2))] + [op('tail', 0), op('tail', 1)]
+    o += [op('slice', a, b) for a, b in ((0, 2), (1, 9), (2, 2))] + [op('tail', 0), op('tail', 1), op('head', 2), op('head', 9)]
     o += [op('index', j) for j in (0, 2, 7)]
     strs = sorted(set(items))[:3] + ['ab', 'ba', '\\end{e}']
     o += [op('sw', s=s) for s in strs] + [op('ew', s=s) for s in strs[:4]]
@@ -78,6 +78,8 @@ def do_op(b, o):
             r = b[a:bb]
         elif k == 'tail':
             r = b[a:]
+        elif k == 'head':
+            r = b[:a]
         elif k == 'index':
             r = b[a]
         elif k == 'sw':
@@ -140,12 +142,8 @@ def in_range(o, n, c):
         return a >= 0 and c + a <= n
     if k == 'back':
         return a >= 0 and c - a >= 0
-    if k == 'peek':
-        return c + a >= 0
     if k == 'peekr':
-        return c + a >= 0 and a <= b
-    if k == 'ew':
-        return c - len(o['s']) >= 0
+        return a <= b
     return True
 
 
